@@ -2,7 +2,8 @@
    (a non-empty byte string without white space and without NUL), as far as the parsers
    look at it: accept / reject of mpf_set_str and mpq_set_str in base 10 (transcribed from
    mpf/set_str.c, mpz/set_str.c, mpq/set_str.c), the numerator and denominator mpq_set_str
-   stores (NOT canonicalised), strtol-based atoi and sscanf %d / %ld of glibc, and the
+   stores (NOT canonicalised), strtol-based atoi and sscanf %d / %ld of glibc,
+   mps_utils_parse_long (strtol with a range check, common/utils.c), and the
    `long = int_or_long * LOG2_10` conversion through a double.
 
    These concrete functions are used by the extracted model and by the refutation
@@ -120,6 +121,30 @@ Definition strtol10 (l : list Z) : option Z :=
               then let v := digits_val l1 0 in Some (if neg then Z.max long_min (- v) else Z.min long_max v)
               else None
   | [] => None
+  end.
+
+(* the value strtol reads before it saturates: None = no conversion (end == string) *)
+Definition strtol10_exact (l : list Z) : option Z :=
+  let l0 := drop_spaces l in
+  let '(neg, l1) := match l0 with
+                    | c :: r => if c =? 45 then (true, r) else if c =? 43 then (false, r) else (false, l0)
+                    | [] => (false, l0)
+                    end in
+  match l1 with
+  | c :: _ => if isdigit c then let v := digits_val l1 0 in Some (if neg then - v else v) else None
+  | [] => None
+  end.
+
+Definition int_max : Z := 2147483647.
+
+(* common/utils.c mps_utils_parse_long (string, min, max, &value) (commit 9e1e2262):
+     errno = 0; v = strtol (string, &end, 10);
+     if (end == string || errno == ERANGE || v < min || v > max) return false;
+   ERANGE = the digits denote a number outside the range of long.  Some v = true, *value = v *)
+Definition parse_long (l : list Z) (lo hi : Z) : option Z :=
+  match strtol10_exact l with
+  | None => None
+  | Some v => if (v <? long_min) || (long_max <? v) || (v <? lo) || (hi <? v) then None else Some v
   end.
 
 Definition to_int (z : Z) : Z := (z + 2147483648) mod 4294967296 - 2147483648.
